@@ -10,7 +10,9 @@ FixedTargets == {TDyn, TStr, TNum, TBool, TList(TStr), TList(TNum), TList(TDyn),
    TObj([a |-> TList(TStr), b |-> TStr]), TObj([a |-> TObjOpt([b |-> TStr, c |-> TSet(TNum)], <<"c">>)]),
    TObj([a |-> TList(TObjOpt([a |-> TNum, b |-> TStr], <<"b">>))]),
    TObjOpt([a |-> TStr, c |-> TMap(TObjOpt([a |-> TNum, b |-> TStr], <<"b">>))], <<"c">>),
-   TObjOpt([a |-> TNum, b |-> TSet(TObjOpt([a |-> TStr, c |-> TNum], <<"c">>))], <<"b">>)}
+   TObjOpt([a |-> TNum, b |-> TSet(TObjOpt([a |-> TStr, c |-> TNum], <<"c">>))], <<"b">>),
+   \* placeholders below the top of a collection element type
+   TList(TList(TDyn)), TList(TObj([a |-> TDyn])), TSet(TList(TDyn)), TMap(TObj([a |-> TDyn])), TList(TTup(<<TDyn, TStr>>)), TSet(TObj([a |-> TDyn, b |-> TStr]))}
 \* derived from the value's own type: the type itself and every single-position placeholder insertion
 RECURSIVE DynAt(_)
 DynAt(t) == {TDyn} \cup
@@ -19,7 +21,8 @@ DynAt(t) == {TDyn} \cup
     [] t.k = "object" -> UNION {{[t EXCEPT !.as[n] = x] : x \in DynAt(t.as[n])} : n \in DOMAIN t.as}
     [] OTHER -> {}
 Targets(t) == FixedTargets \cup {t} \cup DynAt(t)
-SrcTypes == IF Thorough THEN VT \cup {TList(TDyn), TTup(<<TDyn>>)} ELSE PrimTypes \cup VT1 \cup TakeN(VT2, 8)
+TupSrc == {TTup(<<TList(TNum), TList(TNum)>>), TTup(<<TObj([a |-> TStr])>>), TTup(<<TObj([a |-> TNum]), TObj([a |-> TNum])>>), TTup(<<TTup(<<TNum, TStr>>)>>)}
+SrcTypes == (IF Thorough THEN VT \cup {TList(TDyn), TTup(<<TDyn>>)} ELSE PrimTypes \cup VT1 \cup TakeN(VT2, 8)) \cup TupSrc
 \* values: known / null, typed unknowns (refined), nested unknown / null / marked members, DynamicVal, typed-dynamic null
 ValsOf(t) == TakeN(AllVals(t), IF Thorough THEN 16 ELSE 8) \cup UnkVals(t)
              \cup UNION {TakeN(Weak1(v, TRUE), 2) : v \in TakeN(Vals(t, W), 3)}
